@@ -265,7 +265,7 @@ func handleViolation(t *testing.T, env *ShardEnv, sc *Scenario, w *World, runner
 	}
 	small.LogHash = fmt.Sprintf("%x", fw.log.Sum())
 	small.ShrunkFrom = orig
-	name := fmt.Sprintf("%s-s%d-%x.json", env.Prop, env.Shard, sc.Seed)
+	name := fmt.Sprintf("%s-s%d-%x-%x.json", env.Prop, env.Shard, sc.Seed, fnv64([]byte(small.Signature+fmt.Sprint(small.Extra)))&0xffffff)
 	path := filepath.Join(env.ReplayDir, name)
 	os.MkdirAll(env.ReplayDir, 0o755)
 	small.Save(path)
